@@ -1143,7 +1143,9 @@ impl<'a> Lexer<'a> {
                         let value = i64::from_str_radix(&num_str, 16).unwrap_or(0);
                         return TokenKind::BigInt(value.to_string());
                     }
-                    return TokenKind::Number(i64::from_str_radix(&num_str, 16).unwrap_or(0) as f64);
+                    return TokenKind::Number(
+                        crate::value::parse_radix_digits(&num_str, 16).unwrap_or(0.0),
+                    );
                 }
                 Some('o' | 'O') => {
                     // Octal
@@ -1164,7 +1166,9 @@ impl<'a> Lexer<'a> {
                         let value = i64::from_str_radix(&num_str, 8).unwrap_or(0);
                         return TokenKind::BigInt(value.to_string());
                     }
-                    return TokenKind::Number(i64::from_str_radix(&num_str, 8).unwrap_or(0) as f64);
+                    return TokenKind::Number(
+                        crate::value::parse_radix_digits(&num_str, 8).unwrap_or(0.0),
+                    );
                 }
                 Some('b' | 'B') => {
                     // Binary
@@ -1185,7 +1189,9 @@ impl<'a> Lexer<'a> {
                         let value = i64::from_str_radix(&num_str, 2).unwrap_or(0);
                         return TokenKind::BigInt(value.to_string());
                     }
-                    return TokenKind::Number(i64::from_str_radix(&num_str, 2).unwrap_or(0) as f64);
+                    return TokenKind::Number(
+                        crate::value::parse_radix_digits(&num_str, 2).unwrap_or(0.0),
+                    );
                 }
                 Some('0'..='7') => {
                     // Legacy octal literal (e.g., 0777) - not allowed in strict mode
